@@ -1,0 +1,26 @@
+//go:build verif
+
+package signature
+
+// Machine-checked contracts for package signature (checked by /verif/govc; comment-only file).
+
+//@ import "crypto/x509"
+//@ import "bytes"
+
+// stmt C19: "byte-for-byte identical"
+//@ stmt spec func RawEq(a *x509.Certificate, b *x509.Certificate) bool { bytes.Equal(a.Raw, b.Raw) }
+
+//@ func VerifyAuthenticity(signerInfo, trustedCerts)
+//@   requires forall i int :: 0 <= i && i < len(trustedCerts) ==> trustedCerts[i] != nil
+//@   requires signerInfo != nil ==> forall i int :: 0 <= i && i < len(signerInfo.CertificateChain) ==> signerInfo.CertificateChain[i] != nil
+//@   ensures [iff] err == nil <==> (len(trustedCerts) > 0 && signerInfo != nil && exists i int, j int :: 0 <= i && i < len(signerInfo.CertificateChain) && 0 <= j && j < len(trustedCerts) && RawEq(trustedCerts[j], signerInfo.CertificateChain[i]))
+//@   ensures [argerr] (len(trustedCerts) == 0 || signerInfo == nil) ==> typeof(err) == type(*InvalidArgumentError)
+//@   ensures [trusterr] (len(trustedCerts) > 0 && signerInfo != nil && err != nil) ==> typeof(err) == type(*SignatureAuthenticityError)
+//@   ensures [nilresult] err != nil ==> result == nil
+//@   ensures [first] err == nil ==> exists i int, j int :: 0 <= i && i < len(signerInfo.CertificateChain) && 0 <= j && j < len(trustedCerts) && result == trustedCerts[j] && RawEq(trustedCerts[j], signerInfo.CertificateChain[i]) && (forall i2 int, j2 int :: 0 <= i2 && i2 < i && 0 <= j2 && j2 < len(trustedCerts) ==> !RawEq(trustedCerts[j2], signerInfo.CertificateChain[i2])) && (forall j3 int :: 0 <= j3 && j3 < j ==> !RawEq(trustedCerts[j3], signerInfo.CertificateChain[i]))
+//@   loop 0
+//@     invariant forall i2 int, j2 int :: 0 <= i2 && i2 < it && 0 <= j2 && j2 < len(trustedCerts) ==> !RawEq(trustedCerts[j2], signerInfo.CertificateChain[i2])
+//@   loop 1
+//@     invariant forall i2 int, j2 int :: 0 <= i2 && i2 < it#0 - 1 && 0 <= j2 && j2 < len(trustedCerts) ==> !RawEq(trustedCerts[j2], signerInfo.CertificateChain[i2])
+//@     invariant forall j3 int :: 0 <= j3 && j3 < it ==> !RawEq(trustedCerts[j3], cert)
+//@     invariant 0 <= it#0 - 1 && it#0 - 1 < len(signerInfo.CertificateChain) && cert == signerInfo.CertificateChain[it#0 - 1]
